@@ -513,136 +513,333 @@ func ruleContextPositionTests(c *core.Ctx) {
 		c.Undecided(rule, "anchor/Node", 0, "Node interface not found")
 		return
 	}
+	allKinds := implementers(c, "Node")
 	found := 0
 	for _, d := range c.AllDecls() {
-		if c.DeclPkg(d) != p || !dslValidationFiles(c.Fset.Position(d.Pos()).Filename) {
+		if c.DeclPkg(d) != p || d.Body == nil || !dslValidationFiles(c.Fset.Position(d.Pos()).Filename) {
 			continue
 		}
 		ast.Inspect(d.Body, func(n ast.Node) bool {
-			call, ok := n.(*ast.CallExpr)
-			if !ok {
+			// a visitor-with-context callback, wherever it is written (argument of VisitWithContext or a local first):
+			// func(self VisitorWithContext[T], node Node, context T)
+			lit, ok := n.(*ast.FuncLit)
+			if !ok || lit.Type.Params == nil {
 				return true
 			}
-			f := core.Callee(info, call)
-			if f == nil || f.Name() != "VisitWithContext" || len(call.Args) != 3 {
+			var prm []types.Object
+			for _, fl := range lit.Type.Params.List {
+				for _, nm := range fl.Names {
+					prm = append(prm, info.Defs[nm])
+				}
+			}
+			if len(prm) != 3 || prm[0] == nil || prm[1] == nil || prm[2] == nil {
 				return true
 			}
-			lit, ok := call.Args[2].(*ast.FuncLit)
-			if !ok || len(lit.Type.Params.List) < 3 {
+			if nt := core.NamedOf(prm[0].Type()); nt == nil || nt.Obj().Name() != "VisitorWithContext" {
 				return true
 			}
-			var ctxObj, selfObj types.Object
-			if names := lit.Type.Params.List[2].Names; len(names) == 1 {
-				ctxObj = info.Defs[names[0]]
+			selfObj, nodeObj, ctxObj := prm[0], prm[1], prm[2]
+			parent := map[ast.Node]ast.Node{}
+			var stack []ast.Node
+			ast.Inspect(lit.Body, func(m ast.Node) bool {
+				if m == nil {
+					stack = stack[:len(stack)-1]
+					return true
+				}
+				if len(stack) > 0 {
+					parent[m] = stack[len(stack)-1]
+				}
+				stack = append(stack, m)
+				return true
+			})
+			// assertions `x, ok := S.(T)` in the callback: ok variable -> (subject, T, x)
+			type assertion struct {
+				subj types.Object
+				t    types.Type
+				val  types.Object
 			}
-			if names := lit.Type.Params.List[0].Names; len(names) == 1 {
-				selfObj = info.Defs[names[0]]
-			}
-			for _, ts := range findTypeSwitches(info, lit.Body, nil) {
-				for _, cs := range ts.cases {
-					// a case that reports an error under a negated type test of the context
-					var accepted types.Type
-					// `if _, ok := context.(*T); !ok { error }` — the assertion in the if's init or in a statement of its own
-					okVars := map[types.Object]types.Type{}
-					noteAssert := func(st ast.Stmt) {
-						as, isAs := st.(*ast.AssignStmt)
-						if !isAs || len(as.Rhs) != 1 || len(as.Lhs) != 2 {
-							return
+			asserts := map[types.Object]assertion{}
+			nodeAlias := map[types.Object]bool{nodeObj: true}
+			ctxAlias := map[types.Object]bool{ctxObj: true}
+			for round := 0; round < 2; round++ {
+				ast.Inspect(lit.Body, func(m ast.Node) bool {
+					switch x := m.(type) {
+					case *ast.AssignStmt:
+						if len(x.Rhs) == 1 {
+							if ta, isTA := ast.Unparen(x.Rhs[0]).(*ast.TypeAssertExpr); isTA && ta.Type != nil {
+								so := identObj(info, ta.X)
+								if so == nil {
+									return true
+								}
+								vo := identObj(info, x.Lhs[0])
+								if len(x.Lhs) == 2 {
+									if oo := identObj(info, x.Lhs[1]); oo != nil {
+										asserts[oo] = assertion{so, info.TypeOf(ta.Type), vo}
+									}
+								}
+								if vo != nil && nodeAlias[so] {
+									nodeAlias[vo] = true
+								}
+								if vo != nil && ctxAlias[so] {
+									ctxAlias[vo] = true
+								}
+							}
 						}
-						ta, isTA := ast.Unparen(as.Rhs[0]).(*ast.TypeAssertExpr)
-						if !isTA || identObj(info, ta.X) != ctxObj || ta.Type == nil {
-							return
-						}
-						if o := identObj(info, as.Lhs[1]); o != nil {
-							okVars[o] = info.TypeOf(ta.Type)
-						}
-					}
-					for _, s := range cs.body {
-						noteAssert(s)
-						ifs, isIf := s.(*ast.IfStmt)
-						if !isIf {
-							continue
-						}
-						if ifs.Init != nil {
-							noteAssert(ifs.Init)
-						}
-						if u, isNot := ast.Unparen(ifs.Cond).(*ast.UnaryExpr); isNot && u.Op == token.NOT {
-							if t, ok := okVars[identObj(info, u.X)]; ok {
-								accepted = t
+					case *ast.TypeSwitchStmt:
+						ti := parseTypeSwitch(info, x)
+						if nodeAlias[identObj(info, ti.subject)] {
+							for _, cl := range x.Body.List {
+								if o := info.Implicits[cl]; o != nil {
+									nodeAlias[o] = true
+								}
 							}
 						}
 					}
-					if accepted == nil || len(cs.types) != 1 || cs.types[0] == nil {
+					return true
+				})
+			}
+			covers := func(t types.Type, k types.Type) bool {
+				if types.Identical(t, k) {
+					return true
+				}
+				if iface, ok := t.Underlying().(*types.Interface); ok && types.Implements(k, iface) {
+					return true
+				}
+				return false
+			}
+			// what a condition says about an ok variable: +1 it is true in the then-branch, -1 it is false there
+			okPolarity := func(cond ast.Expr) (types.Object, int) {
+				neg := 1
+				e := ast.Unparen(cond)
+				for {
+					if u, isU := e.(*ast.UnaryExpr); isU && u.Op == token.NOT {
+						neg = -neg
+						e = ast.Unparen(u.X)
 						continue
 					}
-					checked := cs.types[0]
-					found++
-					fn := c.FuncName(d)
-					// holders: struct kinds with a field whose type the checked kind is assignable to
-					for _, impl := range implementers(c, "Node") {
-						st := structOf(impl)
-						nt := core.NamedOf(impl)
-						if st == nil || nt == nil {
-							continue
+					break
+				}
+				if id, isId := e.(*ast.Ident); isId {
+					if o := info.ObjectOf(id); o != nil {
+						if _, known := asserts[o]; known {
+							return o, neg
 						}
-						var holding []string
-						for i := 0; i < st.NumFields(); i++ {
-							ft := st.Field(i).Type()
-							if types.AssignableTo(checked, ft) && !types.Identical(ft, nodeTN.Type()) {
-								holding = append(holding, st.Field(i).Name())
-							}
-						}
-						if len(holding) == 0 {
-							continue
-						}
-						key := fmt.Sprintf("%s/%s accepted under %s/holder %s", fn, typeLabel(checked), typeLabel(accepted), typeLabel(impl))
-						idx, has := ts.covers(impl)
-						exact := false
-						if has {
-							for _, ct := range ts.cases[idx].types {
-								if ct != nil && types.Identical(ct, impl) {
-									exact = true
+						// an explaining local: `own := inStep && step.Type == t`; when it holds, so does every conjunct
+						if rhs := singleDefRHS(info, lit.Body, id); rhs != ast.Expr(id) && neg == 1 {
+							for _, part := range conjuncts(rhs) {
+								if pid, isP := ast.Unparen(part).(*ast.Ident); isP {
+									if po := info.ObjectOf(pid); po != nil {
+										if _, known := asserts[po]; known {
+											return po, 1
+										}
+									}
 								}
 							}
 						}
-						if !exact {
-							c.Bad(rule, key, ts.stmt.Pos(), fmt.Sprintf("%s (which can hold a %s in %s) has no case of its own: it is visited with the incoming context, so a %s nested below it (e.g. inside the items of a vector) is accepted as if it were at the allowed position", typeLabel(impl), typeLabel(checked), strings.Join(holding, "/"), typeLabel(checked)))
-							continue
+					}
+				}
+				if neg == 1 {
+					for _, part := range conjuncts(cond) {
+						if part != cond {
+							if o, pol := okPolarityLeaf(info, part, asserts2objs(asserts)); o != nil && pol == 1 {
+								return o, 1
+							}
 						}
-						leak := ""
-						for _, s := range ts.cases[idx].body {
-							ast.Inspect(s, func(m ast.Node) bool {
-								ce, ok := m.(*ast.CallExpr)
-								if !ok || len(ce.Args) != 2 {
-									return true
-								}
-								sel, ok := ast.Unparen(ce.Fun).(*ast.SelectorExpr)
-								if !ok || identObj(info, sel.X) != selfObj || (sel.Sel.Name != "Visit" && sel.Sel.Name != "VisitChildren") {
-									return true
-								}
-								if identObj(info, ce.Args[1]) != ctxObj {
-									return true // a new context is passed
-								}
-								// unchanged context: only for the holding field
-								okArg := false
-								if sel.Sel.Name == "Visit" {
-									if fs, ok := ast.Unparen(ce.Args[0]).(*ast.SelectorExpr); ok {
-										for _, h := range holding {
-											if fs.Sel.Name == h {
-												okArg = true
+					}
+				}
+				return nil, 0
+			}
+			// the kinds the node can have where statement/expression m executes
+			possible := func(m ast.Node) []types.Type {
+				kinds := append([]types.Type(nil), allKinds...)
+				restrict := func(t types.Type, keep bool) {
+					var out []types.Type
+					for _, k := range kinds {
+						if covers(t, k) == keep {
+							out = append(out, k)
+						}
+					}
+					kinds = out
+				}
+				child := m
+				for cur := parent[m]; cur != nil; child, cur = cur, parent[cur] {
+					switch x := cur.(type) {
+					case *ast.CaseClause:
+						if ts, isTS := parent[parent[cur]].(*ast.TypeSwitchStmt); isTS {
+							ti := parseTypeSwitch(info, ts)
+							if nodeAlias[identObj(info, ti.subject)] {
+								if x.List != nil {
+									var out []types.Type
+									for _, k := range kinds {
+										for _, e := range x.List {
+											if t := info.TypeOf(e); t != nil && covers(t, k) {
+												out = append(out, k)
+												break
+											}
+										}
+									}
+									kinds = out
+								} else {
+									for _, oc := range ts.Body.List {
+										for _, e := range oc.(*ast.CaseClause).List {
+											if t := info.TypeOf(e); t != nil {
+												if tv, isNil := info.Types[e]; !isNil || !tv.IsNil() {
+													restrict(t, false)
+												}
 											}
 										}
 									}
 								}
-								if !okArg && leak == "" {
-									leak = types.ExprString(ce)
-								}
-								return true
-							})
+							}
 						}
-						c.Check(leak == "", rule, key, ts.cases[idx].cc.Pos(), "passes the accepting context only to "+strings.Join(holding, "/"),
-							fmt.Sprintf("the case for %s passes the accepting context on with `%s`: a %s nested below its other children is accepted as if it were at the allowed position", typeLabel(impl), leak, typeLabel(checked)))
+					case *ast.IfStmt:
+						if o, pol := okPolarity(x.Cond); o != nil && nodeAlias[asserts[o].subj] {
+							if child == ast.Node(x.Body) {
+								if pol == 1 {
+									restrict(asserts[o].t, true)
+								} else if _, whole := ast.Unparen(x.Cond).(*ast.UnaryExpr); whole {
+									restrict(asserts[o].t, false)
+								}
+							} else if x.Else != nil && child == ast.Node(x.Else) {
+								if id, plain := ast.Unparen(x.Cond).(*ast.Ident); plain && info.ObjectOf(id) == o {
+									restrict(asserts[o].t, false)
+								} else if pol == -1 {
+									restrict(asserts[o].t, true)
+								}
+							}
+						}
+					case *ast.BlockStmt:
+						for _, sib := range x.List {
+							if ast.Node(sib) == child {
+								break
+							}
+							is, isIf := sib.(*ast.IfStmt)
+							if !isIf || is.Else != nil || len(is.Body.List) == 0 || !stmtLeaves(is.Body.List[len(is.Body.List)-1]) {
+								continue
+							}
+							if id, plain := ast.Unparen(is.Cond).(*ast.Ident); plain {
+								if a, known := asserts[info.ObjectOf(id)]; known && nodeAlias[a.subj] {
+									restrict(a.t, false) // `if x, ok := node.(T); ok { ...; return }`: not a T afterwards
+								}
+							} else if u, isU := ast.Unparen(is.Cond).(*ast.UnaryExpr); isU && u.Op == token.NOT {
+								if a, known := asserts[identObj(info, u.X)]; known && nodeAlias[a.subj] {
+									restrict(a.t, true)
+								}
+							}
+						}
 					}
+				}
+				return kinds
+			}
+			// the kind that is accepted under a type test of the context: an error is reported where the test failed
+			type acceptance struct{ checked, accepted types.Type }
+			var accs []acceptance
+			ast.Inspect(lit.Body, func(m ast.Node) bool {
+				ifs, isIf := m.(*ast.IfStmt)
+				if !isIf {
+					return true
+				}
+				var failed *assertion
+				for _, part := range conjuncts(ifs.Cond) {
+					if u, isU := ast.Unparen(part).(*ast.UnaryExpr); isU && u.Op == token.NOT {
+						if a, known := asserts[identObj(info, u.X)]; known && ctxAlias[a.subj] {
+							aa := a
+							failed = &aa
+						}
+					}
+				}
+				if failed == nil {
+					return true
+				}
+				reports := false
+				ast.Inspect(ifs.Body, func(x ast.Node) bool {
+					if ce, isCall := x.(*ast.CallExpr); isCall {
+						if sel, isSel := ast.Unparen(ce.Fun).(*ast.SelectorExpr); isSel && sel.Sel.Name == "Add" {
+							reports = true
+						}
+					}
+					return true
+				})
+				if !reports {
+					return true
+				}
+				ks := possible(ifs)
+				if len(ks) == 1 {
+					accs = append(accs, acceptance{ks[0], failed.t})
+				}
+				return true
+			})
+			for _, acc := range accs {
+				found++
+				fn := c.FuncName(d)
+				// every call that hands the incoming context (or what it was asserted to be) on
+				type passing struct {
+					call  *ast.CallExpr
+					kinds []types.Type
+				}
+				var passes []passing
+				ast.Inspect(lit.Body, func(m ast.Node) bool {
+					ce, isCall := m.(*ast.CallExpr)
+					if !isCall || len(ce.Args) != 2 {
+						return true
+					}
+					sel, isSel := ast.Unparen(ce.Fun).(*ast.SelectorExpr)
+					if !isSel || identObj(info, sel.X) != selfObj || (sel.Sel.Name != "Visit" && sel.Sel.Name != "VisitChildren") {
+						return true
+					}
+					if !ctxAlias[identObj(info, ce.Args[1])] {
+						return true // a new context is passed
+					}
+					passes = append(passes, passing{ce, possible(ce)})
+					return true
+				})
+				for _, impl := range allKinds {
+					st := structOf(impl)
+					nt := core.NamedOf(impl)
+					if st == nil || nt == nil {
+						continue
+					}
+					var holding []string
+					for i := 0; i < st.NumFields(); i++ {
+						ft := st.Field(i).Type()
+						if types.AssignableTo(acc.checked, ft) && !types.Identical(ft, nodeTN.Type()) {
+							holding = append(holding, st.Field(i).Name())
+						}
+					}
+					if len(holding) == 0 {
+						continue
+					}
+					key := fmt.Sprintf("%s/%s accepted under %s/holder %s", fn, typeLabel(acc.checked), typeLabel(acc.accepted), typeLabel(impl))
+					leak := ""
+					var at token.Pos = lit.Pos()
+					for _, ps := range passes {
+						mayBe := false
+						for _, k := range ps.kinds {
+							if types.Identical(k, impl) {
+								mayBe = true
+							}
+						}
+						if !mayBe {
+							continue
+						}
+						okArg := false
+						sel := ast.Unparen(ps.call.Fun).(*ast.SelectorExpr)
+						if sel.Sel.Name == "Visit" {
+							if fs, isF := ast.Unparen(ps.call.Args[0]).(*ast.SelectorExpr); isF {
+								for _, h := range holding {
+									if fs.Sel.Name == h {
+										okArg = true
+									}
+								}
+							}
+						}
+						if !okArg && leak == "" {
+							leak = types.ExprString(ps.call)
+							at = ps.call.Pos()
+						}
+					}
+					c.Check(leak == "", rule, key, at, "where the node can be a "+typeLabel(impl)+", the accepting context is passed only to "+strings.Join(holding, "/"),
+						fmt.Sprintf("where the node can be a %s (which can hold a %s in %s), the accepting context is passed on with `%s`: a %s nested below its other children (e.g. inside the items of a vector) is accepted as if it were at the allowed position", typeLabel(impl), typeLabel(acc.checked), strings.Join(holding, "/"), leak, typeLabel(acc.checked)))
 				}
 			}
 			return true
@@ -651,6 +848,41 @@ func ruleContextPositionTests(c *core.Ctx) {
 	if found == 0 {
 		c.Undecided(rule, "anchor/context type test", 0, "no context-typed acceptance test found in the validation visitors (validateStreams changed shape)")
 	}
+}
+
+func conjuncts(e ast.Expr) []ast.Expr {
+	if be, ok := ast.Unparen(e).(*ast.BinaryExpr); ok && be.Op == token.LAND {
+		return append(conjuncts(be.X), conjuncts(be.Y)...)
+	}
+	return []ast.Expr{e}
+}
+
+func asserts2objs[T any](m map[types.Object]T) map[types.Object]bool {
+	out := map[types.Object]bool{}
+	for k := range m {
+		out[k] = true
+	}
+	return out
+}
+
+// okPolarityLeaf: part is `ok` (+1) or `!ok` (-1) for a known ok variable.
+func okPolarityLeaf(info *types.Info, part ast.Expr, oks map[types.Object]bool) (types.Object, int) {
+	pol := 1
+	e := ast.Unparen(part)
+	for {
+		if u, isU := e.(*ast.UnaryExpr); isU && u.Op == token.NOT {
+			pol = -pol
+			e = ast.Unparen(u.X)
+			continue
+		}
+		break
+	}
+	if id, ok := e.(*ast.Ident); ok {
+		if o := info.ObjectOf(id); o != nil && oks[o] {
+			return o, pol
+		}
+	}
+	return nil, 0
 }
 
 // commaOkCase recognises, at the start of a visitor callback,
@@ -705,6 +937,15 @@ func commaOkCase(info *types.Info, body *ast.BlockStmt, nodeAliases map[types.Ob
 				nodeAliases[o] = true
 			}
 			return info.TypeOf(ta.Type), ifs.Body.List[0]
+		}
+		// if x, ok := node.(T); ok { <T>; return }  followed by nothing but the descent
+		if okObj != nil && identObj(info, ifs.Cond) == okObj && !hasElse && ifs.Else == nil && len(ifs.Body.List) > 0 && i < len(body.List)-1 {
+			if _, leaves := ifs.Body.List[len(ifs.Body.List)-1].(*ast.ReturnStmt); leaves && descendsOnly(&ast.BlockStmt{List: body.List[i+1:]}) {
+				if o := identObj(info, as.Lhs[0]); o != nil {
+					nodeAliases[o] = true
+				}
+				return info.TypeOf(ta.Type), ifs.Body.List[0]
+			}
 		}
 	}
 	if len(body.List) < 3 {
